@@ -24,6 +24,7 @@ from vlib.driver import Report, handle_xh, known_findings
 
 HDIR = os.path.dirname(os.path.abspath(__file__))
 H = os.path.join(HDIR, "c13_h.py")
+HR = os.path.join(HDIR, "c13_real_h.py")
 CRASHRUN = os.path.join(os.path.dirname(HDIR), "vlib", "crashrun.py")
 FREEZE = "2024-05-10 10:00:00"
 _M = [None]
@@ -129,8 +130,51 @@ def _adm(n):
     return _ADM[n]
 
 
+REAL_TABLE = []
+
+
+def build_real_table(m, tier, seed):
+    """schedules of the REAL runs: (state triple, boundary k between two real effects[, torn]) - the effect logs come from
+    uninterrupted real runs (in parallel worker processes), so the table follows the current source"""
+    import concurrent.futures as cf
+    from vlib import gen
+    ntr = len(m.VALID) * len(m.VALID) * 4
+    stride = 50 if tier == "quick" else 1
+    idxs = [i for i in range(ntr) if i % stride == seed % stride]
+    chunks = [idxs[i::16] for i in range(16)]
+    logs = []
+    with cf.ThreadPoolExecutor(max_workers=16) as ex:
+        for part in ex.map(lambda ch: xh.eval_in_harness(HR, "effect_logs(%r)" % (ch,), timeout=1200) if ch else [], chunks):
+            logs.extend(part)
+    table = []
+    for a, b, mode, log in sorted(logs):
+        for k in range(len(log) + 1):
+            table.append([a, b, mode, k, 0])
+            if k < len(log) and log[k] in ("write_text", "open_w"):
+                table.append([a, b, mode, k, 1])
+    d = gen.gen_dir()
+    path = os.path.join(d, "c13_real_table.json")
+    json.dump(table, open(path, "w"))
+    return path, table, len(idxs)
+
+
 def replayer(name, args, kwargs, meta):
     m = _load()
+    if name == "converge_real":
+        # the condition already ran the real code; run the same schedule once more in THIS (unpatched) process and report
+        s0, s1, mode, k, torn = REAL_TABLE[args[0]]
+        from vlib import crashreal
+        cmd = "create" if mode == 3 else "reindex"
+        rels = [[], [m.NAMES[0]], [m.NAMES[1]], []][mode]
+        why = crashreal.schedule(m.NAMES, m.TEXTS, (m.VALID[s0], m.VALID[s1]), (m.FILE_STATES, m.INDEX_STATES, m.HASH_STATES),
+                                 cmd, rels, k, bool(torn), m.strip_zids)
+        states = (m.VALID[s0], m.VALID[s1])
+        desc = "files=%r index=%r hash entries=%r; real `db %s%s` killed %s real effect %d, then the same command again" % (
+            [m.TEXTS[j][m.FILE_STATES[s[0]]] for j, s in enumerate(states)],
+            [m.TEXTS[j][m.INDEX_STATES[s[1]]] for j, s in enumerate(states)],
+            [m.TEXTS[j][m.HASH_STATES[s[2]]] for j, s in enumerate(states)], cmd, "".join(" " + r for r in rels),
+            "in the middle of" if torn else "before", k)
+        return bool(why), {"summary": desc + ": " + (why or "as the statement demands"), "why": why}
     s0, s1, mode, k, torn = _adm(args[0])
     states = (m.VALID[s0], m.VALID[s1])
     cmd = "create" if mode == 3 else "reindex"
@@ -225,6 +269,21 @@ def main():
         conds.append(xh.Cond(H, "kf_1", timeout=T, env=dict(env0, XH_N="0-%d" % n_atomic),
                              meta={"family": "known", "known_finding": "KF-C13-1"}))
     conds.append(xh.Cond(H, "converge", timeout=30, twin=True, env=dict(env0, XH_N="100-140"), meta={"variant": "n[100:140]", "family": "twin"}))
+    # family converge_real: the same schedules over the REAL zorg (SQLite, SQLRepo, ANTLR compiler) in a temp directory
+    tpath, table, ntriples = build_real_table(m, tier, seed)
+    REAL_TABLE[:] = table
+    stride = 1 if tier == "quick" else 2
+    rep.note("real-run family: %d state triples (%s), %d schedules, every %s one run" % (
+        ntriples, "every 50th, rotated by the seed" if tier == "quick" else "all", len(table), "" if stride == 1 else "2nd"))
+    envr = {"XH_TABLE": tpath, "XH_STRIDE": stride, "XH_OFFSET": seed}
+    rstep = max(1, (len(table) + 15) // 16)
+    for lo in range(0, len(table), rstep):
+        hi = min(len(table), lo + rstep)
+        conds.append(xh.Cond(HR, "converge_real", timeout=1500 if tier == "quick" else 3000, path_timeout=120,
+                             env=dict(envr, XH_N="%d-%d" % (lo, hi)), cc=False,
+                             meta={"variant": "n[%d:%d]" % (lo, hi), "family": "converge_real",
+                                   "bound": "real-run schedules %d..%d of %d" % (lo, hi - 1, len(table))}))
+    conds.append(xh.Cond(HR, "converge_real", timeout=120, twin=True, env=dict(envr, XH_N="0-8", XH_STRIDE=1), meta={"variant": "n[0:8]", "family": "twin"}))
     results = xh.run_all(conds)
     handle_xh(rep, results, replayer)
     rep.sample({"pre_state": "page a.zo holds a ZID-less note, nothing indexed", "run": "db reindex killed before effect 3, then db reindex"})
